@@ -17,14 +17,14 @@ EXPLANATION = (
     "symbolic model whose solver is played by an oracle (nothing is solved): find_blocked_reactions - exchanges are "
     "opened to (min(lb, -1000), max(ub, 1000)) only when asked and only inside the context, the candidates are the "
     "requested reactions whose flux in one feasible solution is below the cutoff (a reaction that carries flux there is "
-    "not blocked), FVA is asked at fraction_of_optimum 0 for exactly these on the same (opened) model, and the result is "
+    "not blocked), FVA is asked at fraction_of_optimum 0 and under a zero objective (fraction 0 still means objective >= 0 x optimum, which cuts the flux cone when the objective can be negative) for exactly these on the same (opened) model, and the result is "
     "exactly the candidates whose FVA minimum and maximum are both below the cutoff in magnitude (row classes: range "
     "[0,0], one-sided, two-sided, sub-cutoff noise); fastcc - a reaction is kept only if some solve returned a non-zero "
-    "flux for it, a reaction is dropped only when, for each direction its bounds allow, a problem that is exact for that "
-    "direction returned zero on the unrestricted flux cone - an optimisation of its own flux, or a sparse-mode (LP-7) "
-    "constraint that bounds z by its net flux in that direction - whatever optimum the solver returns for the inexact "
-    "sparse-mode members (fwd + rev >= z with both directions open does not bound the net flux, so the oracle returns "
-    "optima in which such reactions carry none); the result is a copy of the untouched model, taken after all contexts are closed, minus exactly the "
+    "flux for it, a reaction is dropped only when, for each direction its bounds allow, an optimisation of its own flux "
+    "on the unrestricted problem returned zero - a sparse-mode (LP-7) optimum is never evidence for a zero: it maximises "
+    "the sum of the auxiliary variables and, under capacity bounds, may leave a reaction without flux that could carry "
+    "some, so the oracle shows flux for a member only in the rounds its table says and never vouches for a zero; the "
+    "result is a copy of the untouched model, taken after all contexts are closed, minus exactly the "
     "dropped reactions. NOT decided: the FVA ranges themselves (C05) and the numbers the solver returns."
 )
 ASSUMPTIONS = ["flux_variability_analysis returns the exact flux ranges (C05)", "the solver returns an optimum of the problem it is given",
@@ -56,6 +56,8 @@ FB_ROWS = {
     "R_both": ((-10.0, 10.0), 0.0, (-4.0, 6.0)),
     "R_flux": ((0.0, 10.0), 1.5, (0.5, 9.0)),
     "R_tiny": ((-10.0, 10.0), -4e-9, (-2.0, 0.0)),
+    "DM_x": ((0.0, 10.0), 0.0, (0.0, 0.0)),      # a demand: a boundary reaction that is no exchange, never opened
+    "SK_y": ((-3.0, 1000.0), 0.0, (-3.0, 8.0)),  # a sink
 }
 
 
@@ -63,6 +65,11 @@ def _fb_model():
     rxns = [RxnLP(rid, *b) for rid, (b, _, _) in FB_ROWS.items()]
     m = ModelLP(rxns, {"R_flux": 1.0})
     m.exchanges = [r for r in rxns if r.id.startswith("EX_")]
+    m.boundary = [r for r in rxns if r.id.startswith(("EX_", "DM_", "SK_"))]
+    m.demands = [r for r in rxns if r.id.startswith("DM_")]
+    m.sinks = [r for r in rxns if r.id.startswith("SK_")]
+    for r in m.boundary:
+        r.boundary = True
     m.script = lambda model, f: (1.5, {rid: fl for rid, (_, fl, _) in FB_ROWS.items()}, "optimal")
     # the model has been optimised before, under other bounds: a stale solution is lying around
     m.solver.status = "optimal"
@@ -92,6 +99,7 @@ def check_find_blocked(ctx) -> None:
                     m = kw.get("model")
                     kw["_bounds"] = {r.id: (r.lower_bound, r.upper_bound) for r in m.reactions} if isinstance(m, ModelLP) else None
                     kw["_open_contexts"] = len(m._stack) if isinstance(m, ModelLP) else None
+                    kw["_objective"] = {v.name: k for v, k in Lin.of(m.solver.objective.expression).terms.items() if k} if isinstance(m, ModelLP) else None
                     calls.append(kw)
                     ids = [getattr(r, "id", r) for r in (kw.get("reaction_list") if kw.get("reaction_list") is not None else m.reactions)]
                     return Frame({"minimum": [FB_ROWS[i][2][0] for i in ids], "maximum": [FB_ROWS[i][2][1] for i in ids]}, ids)
@@ -109,7 +117,7 @@ def check_find_blocked(ctx) -> None:
                 it = Interp(prog, NATIVE, ["cobra.flux_analysis.helpers.normalize_cutoff"], {
                     "cobra.flux_analysis.variability.flux_variability_analysis": fva_stub,
                     "cobra.core.solution.get_solution": get_solution_stub,
-                })
+                }, globals_={"Zero": Lin()})
                 it.tolerance = CUT
                 model.tolerance = CUT
                 kwargs: Dict[str, Any] = {"open_exchanges": open_ex}
@@ -140,6 +148,8 @@ def check_find_blocked(ctx) -> None:
                 kw = calls[0]
                 if kw.get("fraction_of_optimum") != 0.0:
                     problems.setdefault("fva", f"{what}: FVA is asked at fraction_of_optimum={kw.get('fraction_of_optimum')!r}; at any fraction above 0 a reaction that cannot carry flux at the optimum only is reported as blocked")
+                if kw.get("_objective"):
+                    problems.setdefault("fva", f"{what}: FVA is run with the model's objective in place ({kw['_objective']}): also at fraction_of_optimum 0 it keeps the objective at or beyond 0 x optimum, i.e. only flux distributions with a non-negative (maximisation) objective value are considered - with an objective that can be negative (a reversible objective reaction, a minimisation) reactions that can carry flux are reported as blocked; the objective has to be neutral (zero) for the ranges")
                 if kw.get("model") is not model or kw.get("_open_contexts") != 1:
                     problems.setdefault("fva", f"{what}: FVA is not run on the model inside the function's own context")
                 ids = [getattr(r, "id", r) for r in (kw.get("reaction_list") or [])]
@@ -158,7 +168,7 @@ def check_find_blocked(ctx) -> None:
                         problems.setdefault("open", f"{what}: the bounds of {r.id} are left at {(r.lower_bound, r.upper_bound)} after the call")
                 if model._stack:
                     problems.setdefault("open", f"{what}: the model context is left open")
-    for clause, text in (("verdict", "blocked = requested reactions whose FVA minimum and maximum are both below the cutoff"), ("fva", "one FVA, fraction_of_optimum 0, same model, inside the context"),
+    for clause, text in (("verdict", "blocked = requested reactions whose FVA minimum and maximum are both below the cutoff"), ("fva", "one FVA, fraction_of_optimum 0 under a neutral (zero) objective, same model, inside the context"),
                          ("candidates", "FVA covers every requested reaction without flux in the first solution, nothing outside the request"),
                          ("open", "exchanges opened to (min(lb,-1000), max(ub,1000)) only when asked, bounds restored"), ("raise", "no scenario raises")):
         if clause in problems:
@@ -195,12 +205,10 @@ class _Oracle:
     """Plays the solver for fastcc.
 
     * `optimise the flux of r` gets r's true optimum (exact evidence for that direction);
-    * a sparse-mode problem (maximise a sum of auxiliary variables z) gets an optimum in which a member whose
-      constraint ties z to the *net* flux in one direction (z <= v_r or z <= -v_r, e.g. fwd + rev >= z when the
-      other direction is closed by the bounds) carries flux whenever it can (the LP-7 argument of FASTCC: exact
-      evidence for that direction), while a member whose constraint does not bound the net flux (fwd + rev >= z with
-      both directions open) carries net flux only in the round the table schedules - the formulation admits such
-      optima, so the verdict must not depend on them.
+    * a sparse-mode problem (maximise a sum of auxiliary variables z) gets an optimum in which a member carries flux
+      only in the round the table schedules for it: such a problem maximises the *sum*, and under capacity bounds an
+      optimum may leave a reaction at zero that could carry flux, so the verdict "cannot carry flux" must never rest
+      on it.
     """
 
     def __init__(self, table):
@@ -245,12 +253,12 @@ class _Oracle:
                         tight = "max"
                     elif b > 0 and (a == -b or not fwd_open):
                         tight = "min"
-                    if tight is not None and not restricted:
-                        opt = mx if tight == "max" else mn
-                        self._note(rid, tight, opt, [])
-                        if opt:
-                            fluxes[rid] = 0.5 * opt if opt not in (float("inf"), float("-inf")) else (1.0 if opt > 0 else -1.0)
-                    elif rnd is not None and rnd <= self.sparse_round:
+                    # A sparse-mode optimum is no evidence that a member *cannot* carry flux, not even for a member
+                    # whose constraint ties z to its net flux in the one direction its bounds allow: the optimum
+                    # maximises the *sum* of the z, and under capacity bounds (a limited source feeding competing
+                    # branches) it may leave a reaction at zero that could carry flux. The oracle therefore shows
+                    # flux for a member only in the rounds the table says, and never vouches for a zero.
+                    if rnd is not None and rnd <= self.sparse_round:
                         fluxes[rid] = 0.5 * (mx if mx not in (0.0, float("inf")) else mn)
             else:
                 self.other += 1  # e.g. a flipped objective: the oracle returns the zero solution
@@ -358,7 +366,7 @@ def check_fastcc(ctx) -> None:
                     continue  # that direction is excluded by the bounds
                 ev = rec.get(sense, [])
                 if not ev:
-                    problems.setdefault("drop", f"{what}: {rid} is removed although no problem that is exact for its {'forward' if sense == 'max' else 'backward'} direction was posed (neither an optimisation of its own flux nor a sparse-mode constraint that bounds z by its net flux); the verdict rests on which optimum the solver happened to return, and {rid} is in fact {truth}")
+                    problems.setdefault("drop", f"{what}: {rid} is removed although no problem that is exact for its {'forward' if sense == 'max' else 'backward'} direction was posed (no optimisation of its own flux in that direction; a sparse-mode optimum does not show that a reaction cannot carry flux); the verdict rests on which optimum the solver happened to return, and {rid} is in fact {truth}")
                     break
                 if all(r for _, r in ev):
                     problems.setdefault("drop", f"{what}: the only {sense}imisation evidence for {rid} was obtained on a restricted flux cone ({ev[0][1][0]})")
